@@ -7,6 +7,7 @@ import (
 	"go/types"
 	"math/big"
 	"strconv"
+	"strings"
 )
 
 // CEnv is the environment of a contract expression.
@@ -16,6 +17,7 @@ type CEnv struct {
 	oldV  map[string]Val
 	bound map[string]Val
 	lemma bool // repo functions may be called (by contract)
+	localsFirst bool // loop invariants: names denote the current locals (parameters are mutable), old(x) the entry value
 }
 
 // untyped integer constant in a contract expression
@@ -88,7 +90,7 @@ func (c *FnCtx) cenvDefault(env *CEnv) *CEnv {
 	if env != nil {
 		return env
 	}
-	return &CEnv{vars: c.entryCtr, old: c.entry, oldV: c.entryCtr}
+	return &CEnv{vars: c.entryCtr, old: c.entry, oldV: c.entryCtr, localsFirst: true}
 }
 
 func (c *FnCtx) evalCExpr(st *State, e ast.Expr, env *CEnv) Val {
@@ -204,6 +206,25 @@ func (c *FnCtx) ceIdent(st *State, x *ast.Ident, env *CEnv) Val {
 	}
 	if v, ok := env.bound[x.Name]; ok {
 		return v
+	}
+	if strings.HasPrefix(x.Name, "iter_") && st != nil {
+		// the hidden index of range loop N
+		for o := range st.env {
+			if o.Name() == "$i"+strings.TrimPrefix(x.Name, "iter_") {
+				return st.env[o]
+			}
+		}
+	}
+	if env.localsFirst && st != nil {
+		var found types.Object
+		for o := range st.env {
+			if o.Name() == x.Name && (found == nil || o.Pos() > found.Pos()) {
+				found = o
+			}
+		}
+		if found != nil {
+			return st.env[found]
+		}
 	}
 	if v, ok := env.vars[x.Name]; ok {
 		return v
@@ -351,6 +372,10 @@ func (c *FnCtx) ceNilCmp(v Val, op token.Token) string {
 		isNil = x.nilTerm()
 	case *PtrVal:
 		isNil = not(x.NonNil)
+	case *StructVal:
+		if nn, ok := x.F["$nonnil"].(SV); ok {
+			isNil = not(nn.T)
+		}
 	}
 	if isNil == "" {
 		c.unsupportedf(token.NoPos, "contract: nil comparison on %T", v)
